@@ -262,7 +262,8 @@ def parse_event(ln):
     if p[0] == "X":
         return {"k": "X", "c": None if p[1] == "-" else int(p[1]), "cls": p[2]}
     if p[0] == "T":
-        return {"k": "T", "now": int(p[1]), "old": int(p[2])}
+        num = lambda x: int(x) if not x.startswith("f") else float(x[1:]) * TICKS
+        return {"k": "T", "now": num(p[1]), "old": num(p[2])}
     return {"k": "?", "raw": ln}
 
 
